@@ -126,7 +126,11 @@ impl RemovalBuffer {
         entity: Entity,
         removed_components: &HashSet<ComponentId>,
     ) {
-        let mut removed_ids = self.ids_buffer.pop().unwrap_or_default();
+        // Extend removals that were buffered on previous frames of this tick.
+        let mut removed_ids = self
+            .removals
+            .remove(&entity)
+            .unwrap_or_else(|| self.ids_buffer.pop().unwrap_or_default());
         for rule in rules
             .iter()
             .filter(|rule| rule.matches_removals(archetype, removed_components))
